@@ -5,4 +5,4 @@ LEVEL = "proof"
 
 
 def run(chk, replay=None):
-    proccheck.run(chk, "PropC02", {'failures', 260, 4000, 5,'mixed':3,'all_ok':1}:[101,201,202], replay=replay)
+    proccheck.run(chk, "PropC02", {'failures': 5, 'mixed': 3, 'all_ok': 1}, 140, 3000, [101, 201, 202], replay=replay)
